@@ -32,4 +32,32 @@ PROPS = {
         "assumptions": ["binary search on the sorted Vec selects the position of the model's list walk (compared on every run)",
                         "offsets < 2^64 so that u64 arithmetic does not wrap (segments are (offset, offset+len) of received PDUs)"],
     },
+    "C14": {
+        "props_files": ["C14"],
+        "theorems": ["C14_all_chunkings", "C14_until_eof", "C14_null", "C14_modular", "C14_single_byte_change",
+                     "C14_agree_iff_same", "C14_range"],
+        "components": ["checksum"],
+        "rule": "cases = one file content with several checksum calls (K: real File / Cursor / a Read+Seek adaptor returning scripted "
+                "short reads; D: a pair of contents, identical or differing in one byte, read with two different chunkings); every length "
+                "0..70 x 3 contents x every constant read size 1..9 + random sizes; lengths within 5 of 8192/16384 (thorough: up to 40960) "
+                "with read sizes 8191/8192/8193/4097/mixed; random contents up to 40 KiB with mixed read sizes, 20% adversarial (early "
+                "end-of-file reads, all-0xff / carry-propagating contents); bounded exhaustive: every chunking of every length <= 11 "
+                "(thorough 14) into reads of 1..5 bytes; non-trivial = at least 2 operations; distinct = distinct op-list text",
+        "explanation": "Theorems over Model/Checksum.v for all chunk lists and all contents (induction four bytes at a time, unbounded N "
+                       "with the mod 2^32 written explicitly); model tied to filestore.rs by differential execution of the extracted model "
+                       "and the real FileChecksum::checksum on files, cursors and a short-reading reader whose observed read sizes are "
+                       "compared too; oracle = naive padded big-endian word sum on the implementation's outputs.",
+        "level_text": "Full proof on the model: for every list of non-empty buffers handed out by the reader (any chunking, any total length "
+                      "including 0 and non-multiples of 4) the buffer-by-buffer computation equals the CCSDS definition (zero-pad to a multiple "
+                      "of 4, big-endian words, sum mod 2^32); Null is 0; two equal-length contents differing in exactly one byte have different "
+                      "checksums, hence readers with different chunkings agree on identical data and disagree after a one-byte change. The model "
+                      "is tied to filestore.rs by differential execution with scripted short reads, boundary lengths and bounded-exhaustive "
+                      "chunkings. This is the right level because the property quantifies over all contents and all chunkings of a pure function.",
+        "level_note": "Trusted: Coq kernel; extraction (ExtrOcamlBasic); OCaml driver and Rust harness printing; BufReader semantics (one read "
+                      "call of at most 8192 bytes per fill_buf after consume(len); rewind discards the buffer) is modelled as the explicit chunk "
+                      "list and cross-checked on every run by comparing the read sizes the adaptor observed with the ones the model was given.",
+        "assumptions": ["the reader is well behaved: Ok(0) means end of file, data does not change while it is read",
+                        "BufReader::fill_buf hands out exactly what one read call of the underlying reader returned (compared on every run)",
+                        "bytes are < 256 (single-byte sensitivity is stated for byte values)"],
+    },
 }
